@@ -31,12 +31,22 @@ use tiny_std::io::{Read, Write};
 use tiny_std::{Errno, Error};
 
 const ALL: usize = usize::MAX;
+/// ladder scripts only: half of the requested length (at least 1)
+const HALF: usize = usize::MAX - 1;
 const HORIZON_MSG: &str = "C15-call-horizon-exceeded";
 
 /// menu of delivery sizes of the reader (besides ALL)
 const RMENU: [usize; 5] = [1, 2, 31, 32, 33];
 /// menu of accepted sizes of the writer (besides ALL)
 const WMENU: [usize; 3] = [1, 2, 4];
+/// size ladder: chunk sizes of the reader (besides HALF and ALL) / accepted sizes of the writer (besides ALL)
+const LMENU: [usize; 4] = [1, 10, 1000, 4096];
+const LWMENU: [usize; 2] = [1, 100];
+/// size ladder: spare capacities / buffer sizes; payload lengths are these plus two large ones
+const LADDER: [usize; 19] = [0, 1, 31, 32, 33, 127, 128, 129, 1023, 1024, 1025, 4095, 4096, 4097, 8191, 8192, 8193, 16384, 65536];
+const LADDER_EXTRA_LENS: [usize; 2] = [3 * 8192 + 5, 100_000];
+/// size ladder: lengths of the formatted pieces
+const PIECE_LENS: [usize; 9] = [0, 1, 2, 127, 128, 129, 300, 4096, 5000];
 
 const OLD: [u8; 5] = [0xE0, 0xE1, 0xE2, 0xE3, 0xE4];
 const OLD_STR: &str = "ab\u{20ac}"; // 5 bytes, ends in a 3-byte character
@@ -75,6 +85,25 @@ fn wsym(i: usize) -> Step {
 }
 const N_WSYM: usize = 7;
 
+fn lsym(i: usize) -> Step {
+    match i {
+        0..=3 => Step::Deliver(LMENU[i]),
+        4 => Step::Deliver(HALF),
+        5 => Step::Deliver(ALL),
+        _ => Step::Eintr,
+    }
+}
+const N_LSYM: usize = 7;
+
+fn lwsym(i: usize) -> Step {
+    match i {
+        0..=1 => Step::Deliver(LWMENU[i]),
+        2 => Step::Deliver(ALL),
+        _ => Step::Eintr,
+    }
+}
+const N_LWSYM: usize = 4;
+
 fn script_string(script: &[Step], writer: bool, out: &mut String) {
     use std::fmt::Write as _;
     for (i, s) in script.iter().enumerate() {
@@ -83,6 +112,7 @@ fn script_string(script: &[Step], writer: bool, out: &mut String) {
         }
         match s {
             Step::Deliver(ALL) => out.push_str(if writer { "AALL" } else { "DALL" }),
+            Step::Deliver(HALF) => out.push_str("DHALF"),
             Step::Deliver(k) => {
                 let _ = write!(out, "{}{k}", if writer { 'A' } else { 'D' });
             }
@@ -100,6 +130,7 @@ fn parse_script(s: &str) -> Vec<Step> {
             "I" => Step::Eintr,
             "F" => Step::Fail,
             "DALL" | "AALL" => Step::Deliver(ALL),
+            "DHALF" => Step::Deliver(HALF),
             _ => Step::Deliver(t[1..].parse().expect("script token")),
         })
         .collect()
@@ -137,9 +168,36 @@ struct SReader<'a> {
     /// bit p set: a delivery ended at payload offset p with bytes still remaining
     cuts: u128,
     trace: Option<Vec<String>>,
+    /// what the reader does once the script is used up
+    tail: Step,
+    /// size-ladder mode: the tail repeats the last scripted chunk size; `HALF` is a menu entry
+    ladder: bool,
 }
 
+const TRACE_CAP: usize = 48;
+
 impl<'a> SReader<'a> {
+    /// size-ladder reader: after the script it keeps delivering with the last scripted chunk size until the data ends
+    fn new_ladder(payload: &'a [u8], script: &'a [Step], verbose: bool) -> Self {
+        let mut rd = SReader::new(payload, script, &LMENU, verbose);
+        rd.ladder = true;
+        rd.tail = script.iter().rev().find(|s| matches!(s, Step::Deliver(_))).copied().unwrap_or(Step::Deliver(ALL));
+        // a script whose last entry is the chunk size the shorter script would repeat anyway is that shorter script
+        if let Some((Step::Deliver(k), rest)) = script.split_last() {
+            let prev = rest.iter().rev().find(|s| matches!(s, Step::Deliver(_))).copied().unwrap_or(Step::Deliver(ALL));
+            if prev == Step::Deliver(*k) {
+                rd.canonical = false;
+            }
+        }
+        rd
+    }
+    fn with_mode(payload: &'a [u8], script: &'a [Step], ladder: bool, verbose: bool) -> Self {
+        if ladder {
+            SReader::new_ladder(payload, script, verbose)
+        } else {
+            SReader::new(payload, script, &RMENU, verbose)
+        }
+    }
     fn new(payload: &'a [u8], script: &'a [Step], menu: &'a [usize], verbose: bool) -> Self {
         SReader {
             payload,
@@ -156,6 +214,8 @@ impl<'a> SReader<'a> {
             thash: 0xcbf29ce484222325,
             cuts: 0,
             trace: if verbose { Some(Vec::new()) } else { None },
+            tail: Step::Deliver(ALL),
+            ladder: false,
         }
     }
     fn delivered(&self) -> &'a [u8] {
@@ -189,13 +249,30 @@ impl Read for SReader<'_> {
             self.cur += 1;
             (self.script[self.cur - 1], true)
         } else {
-            (Step::Deliver(ALL), false)
+            (self.tail, false)
         };
         let last = scripted && self.cur == self.script.len();
         let res = match step {
             Step::Deliver(k) => {
+                let half = (buf.len() / 2).max(1);
+                let k = if k == HALF { half } else { k };
                 let n = k.min(avail);
-                if scripted {
+                if scripted && self.ladder {
+                    // counted once per script whose deliveries were honoured as written: a clipped delivery, or a
+                    // HALF/ALL that coincides with a smaller menu entry, duplicates the script with that entry
+                    let sym = self.script[self.cur - 1];
+                    if n == 0 || n != k {
+                        if sym != Step::Deliver(ALL) || n == 0 {
+                            self.canonical = false;
+                        }
+                    }
+                    if sym == Step::Deliver(HALF) && self.menu.contains(&n) {
+                        self.canonical = false;
+                    }
+                    if sym == Step::Deliver(ALL) && (self.menu.contains(&n) || n == half) {
+                        self.canonical = false;
+                    }
+                } else if scripted {
                     if n == 0 {
                         self.canonical = false; // `Z` stands for this response
                     } else if k == ALL {
@@ -243,7 +320,11 @@ impl Read for SReader<'_> {
             },
         );
         if let Some(t) = &mut self.trace {
-            t.push(format!("read(len {}) -> {:?}{}", buf.len(), res, if scripted { "" } else { " [after script]" }));
+            if t.len() < TRACE_CAP {
+                t.push(format!("read(len {}) -> {:?}{}", buf.len(), res, if scripted { "" } else { " [after script]" }));
+            } else if t.len() == TRACE_CAP {
+                t.push("... (further calls not shown)".into());
+            }
         }
         res
     }
@@ -352,7 +433,11 @@ impl Write for SWriter<'_> {
             }
         };
         if let Some(t) = &mut self.trace {
-            t.push(format!("write(len {}) -> {:?}{}", buf.len(), res, if scripted { "" } else { " [sticky / after script]" }));
+            if t.len() < TRACE_CAP {
+                t.push(format!("write(len {}) -> {:?}{}", buf.len(), res, if scripted { "" } else { " [sticky / after script]" }));
+            } else if t.len() == TRACE_CAP {
+                t.push("... (further calls not shown)".into());
+            }
         }
         res
     }
@@ -387,6 +472,29 @@ fn viol(r: &mut Report, op: &str, kind: &str, desc: String, case: &str) {
     r.violation(&format!("C15:{op}:{kind}"), desc, case_json(case));
 }
 
+/// `show_bytes`, shortened for long operands
+fn brief(b: &[u8]) -> String {
+    if b.len() <= 128 {
+        show_bytes(b)
+    } else {
+        format!("{}...[{} bytes]", show_bytes(&b[..32]), b.len())
+    }
+}
+
+/// where two byte strings part
+fn diff_desc(got: &[u8], want: &[u8]) -> String {
+    let i = got.iter().zip(want.iter()).take_while(|(a, b)| a == b).count();
+    format!(
+        "got {} bytes {}, expected {} bytes {}; first difference at offset {i}: got {} expected {}",
+        got.len(),
+        brief(got),
+        want.len(),
+        brief(want),
+        show_bytes(&got[i..got.len().min(i + 12)]),
+        show_bytes(&want[i..want.len().min(i + 12)])
+    )
+}
+
 fn print_trace(t: &Option<Vec<String>>) {
     if let Some(t) = t {
         for l in t {
@@ -410,7 +518,8 @@ fn rd_summary(rd: &SReader) -> String {
 // ---------------------------------------------------------------------------
 // read_to_end
 
-fn run_rte(r: &mut Report, case: &str, payload: &[u8], script: &[Step], len0: usize, cap0: usize, verbose: bool) {
+#[allow(clippy::too_many_arguments)]
+fn run_rte(r: &mut Report, case: &str, payload: &[u8], script: &[Step], len0: usize, cap0: usize, ladder: bool, verbose: bool) {
     const OP: &str = "read_to_end";
     r.eval();
     let mut v: Vec<u8> = Vec::with_capacity(cap0);
@@ -419,7 +528,7 @@ fn run_rte(r: &mut Report, case: &str, payload: &[u8], script: &[Step], len0: us
         r.outcome("setup:capacity-differs-from-request");
     }
     let cap_before = v.capacity();
-    let mut rd = SReader::new(payload, script, &RMENU, verbose);
+    let mut rd = SReader::with_mode(payload, script, ladder, verbose);
     let res = catch(|| rd.read_to_end(&mut v));
     if rd.counts_as_distinct() {
         r.nontrivial_unique();
@@ -464,7 +573,7 @@ fn run_rte(r: &mut Report, case: &str, payload: &[u8], script: &[Step], len0: us
                     r,
                     OP,
                     "wrong-bytes",
-                    format!("appended {} bytes {}, reader delivered {} bytes {}", v.len() - len0, show_bytes(&v[len0..]), want.len(), show_bytes(want)),
+format!("appended vs delivered: {}", diff_desc(&v[len0..], want)),
                     case,
                 );
             }
@@ -496,26 +605,32 @@ fn run_rte(r: &mut Report, case: &str, payload: &[u8], script: &[Step], len0: us
 
 /// `ident` identifies (payload, initial state) for the distinct-case hash.
 #[allow(clippy::too_many_arguments)]
-fn run_rts(r: &mut Report, case: &str, payload: &[u8], script: &[Step], menu: &[usize], old: &str, spare: usize, ident: u64, verbose: bool) -> u128 {
+fn run_rts(r: &mut Report, case: &str, payload: &[u8], script: &[Step], menu: &[usize], old: &str, spare: usize, ident: u64, ladder: bool, verbose: bool) -> u128 {
     const OP: &str = "read_to_string";
     r.eval();
     let mut s = String::with_capacity(old.len() + spare);
     s.push_str(old);
-    let mut rd = SReader::new(payload, script, menu, verbose);
+    let mut rd = if ladder { SReader::new_ladder(payload, script, verbose) } else { SReader::new(payload, script, menu, verbose) };
     let res = catch(|| rd.read_to_string(&mut s));
-    // several sub-enumerations of read_to_string overlap: distinct cases are counted by response trace
-    r.nontrivial(&(ident, rd.thash, rd.calls));
+    if ladder {
+        if rd.counts_as_distinct() {
+            r.nontrivial_unique();
+        }
+    } else {
+        // several sub-enumerations of read_to_string overlap: distinct cases are counted by response trace
+        r.nontrivial(&(ident, rd.thash, rd.calls));
+    }
     // look at the raw bytes first: a String holding invalid UTF-8 must not be touched through str APIs
     let raw: Vec<u8> = s.as_bytes().to_vec();
     if verbose {
         print_trace(&rd.trace);
-        println!("  result: {res:?}; string bytes now {}; {}", show_bytes(&raw), rd_summary(&rd));
+        println!("  result: {res:?}; string bytes now {}; {}", brief(&raw), rd_summary(&rd));
     }
     let delivered = rd.delivered();
     let delivered_utf8 = std::str::from_utf8(delivered).is_ok();
     let unchanged = raw == old.as_bytes();
     if std::str::from_utf8(&raw).is_err() {
-        viol(r, OP, "string-holds-invalid-utf8", format!("String bytes after the call: {} (result {res:?})", show_bytes(&raw)), case);
+        viol(r, OP, "string-holds-invalid-utf8", format!("String bytes after the call: {} (result {res:?})", brief(&raw)), case);
         std::mem::forget(s);
         r.outcome("read_to_string:string-corrupted");
         return rd.cuts;
@@ -543,7 +658,7 @@ fn run_rts(r: &mut Report, case: &str, payload: &[u8], script: &[Step], menu: &[
             }
             if !delivered_utf8 {
                 r.outcome("read_to_string:accepted-invalid-utf8");
-                viol(r, OP, "accepted-invalid-utf8", format!("returned Ok({n}) for delivered bytes {}", show_bytes(delivered)), case);
+                viol(r, OP, "accepted-invalid-utf8", format!("returned Ok({n}) for delivered bytes {}", brief(delivered)), case);
                 return rd.cuts;
             }
             r.outcome(match (rd.saw_eintr, rd.pos < payload.len()) {
@@ -555,7 +670,7 @@ fn run_rts(r: &mut Report, case: &str, payload: &[u8], script: &[Step], menu: &[
             let mut want = old.as_bytes().to_vec();
             want.extend_from_slice(delivered);
             if raw != want {
-                viol(r, OP, "wrong-bytes", format!("string is {}, expected old + delivered = {}", show_bytes(&raw), show_bytes(&want)), case);
+                viol(r, OP, "wrong-bytes", format!("string vs old + delivered: {}", diff_desc(&raw, &want)), case);
             }
             if n != delivered.len() {
                 viol(r, OP, "wrong-count", format!("returned Ok({n}), reader delivered {} bytes", delivered.len()), case);
@@ -570,7 +685,7 @@ fn run_rts(r: &mut Report, case: &str, payload: &[u8], script: &[Step], menu: &[
                         r,
                         OP,
                         "string-modified-on-invalid-utf8",
-                        format!("delivered bytes {} are not UTF-8, result {e:?}, string changed from {:?} to bytes {}", show_bytes(delivered), old, show_bytes(&raw)),
+                        format!("delivered bytes {} are not UTF-8, result {e:?}, string changed from {:?} to bytes {}", brief(delivered), old, brief(&raw)),
                         case,
                     );
                 }
@@ -586,7 +701,7 @@ fn run_rts(r: &mut Report, case: &str, payload: &[u8], script: &[Step], menu: &[
                 viol(r, OP, "eintr-surfaced", format!("returned {e:?} instead of retrying; {}", rd_summary(&rd)), case);
             } else {
                 r.outcome("read_to_string:spurious-error");
-                viol(r, OP, "spurious-error", format!("returned {e:?}; delivered bytes {} are UTF-8 and the reader reported no error", show_bytes(delivered)), case);
+                viol(r, OP, "spurious-error", format!("returned {e:?}; delivered bytes {} are UTF-8 and the reader reported no error", brief(delivered)), case);
             }
         }
     }
@@ -596,18 +711,18 @@ fn run_rts(r: &mut Report, case: &str, payload: &[u8], script: &[Step], menu: &[
 // ---------------------------------------------------------------------------
 // read_exact
 
-fn run_rex(r: &mut Report, case: &str, payload: &[u8], script: &[Step], bufsize: usize, verbose: bool) {
+fn run_rex(r: &mut Report, case: &str, payload: &[u8], script: &[Step], bufsize: usize, ladder: bool, verbose: bool) {
     const OP: &str = "read_exact";
     r.eval();
     let mut b = vec![SENTINEL; bufsize];
-    let mut rd = SReader::new(payload, script, &RMENU, verbose);
+    let mut rd = SReader::with_mode(payload, script, ladder, verbose);
     let res = catch(|| rd.read_exact(&mut b));
     if rd.counts_as_distinct() {
         r.nontrivial_unique();
     }
     if verbose {
         print_trace(&rd.trace);
-        println!("  result: {res:?}; buffer {}; {}", show_bytes(&b), rd_summary(&rd));
+        println!("  result: {res:?}; buffer {}; {}", brief(&b), rd_summary(&rd));
     }
     match res {
         Err(p) => {
@@ -636,7 +751,7 @@ fn run_rex(r: &mut Report, case: &str, payload: &[u8], script: &[Step], bufsize:
                     (false, true) => "read_exact:ok-after-eintr",
                 });
                 if b[..] != payload[..bufsize] {
-                    viol(r, OP, "wrong-bytes", format!("buffer {} but the first {bufsize} delivered bytes are {}", show_bytes(&b), show_bytes(&payload[..bufsize])), case);
+                    viol(r, OP, "wrong-bytes", format!("buffer vs the first {bufsize} delivered bytes: {}", diff_desc(&b, &payload[..bufsize])), case);
                 }
             }
         }
@@ -699,25 +814,42 @@ fn fmt_cases() -> Vec<FmtCase> {
 }
 
 /// `call` runs the helper on the writer; `payload` is what must arrive.
-fn run_write(r: &mut Report, op: &'static str, case: &str, payload: &[u8], script: &[Step], call: &dyn Fn(&mut SWriter<'_>) -> tiny_std::Result<()>, verbose: bool) {
+#[allow(clippy::too_many_arguments)]
+fn run_write(
+    r: &mut Report,
+    op: &'static str,
+    case: &str,
+    payload: &[u8],
+    script: &[Step],
+    menu: &[usize],
+    call: &dyn Fn(&mut SWriter<'_>) -> tiny_std::Result<()>,
+    verbose: bool,
+) {
     r.eval();
-    let mut w = SWriter::new(script, &WMENU, payload.len(), verbose);
+    let mut w = SWriter::new(script, menu, payload.len(), verbose);
     let res = catch(|| call(&mut w));
     if w.counts_as_distinct() {
         r.nontrivial_unique();
     }
     if verbose {
         print_trace(&w.trace);
-        println!("  result: {res:?}; writer accepted {} of {} bytes: {}", w.accepted.len(), payload.len(), show_bytes(&w.accepted));
+        println!("  result: {res:?}; writer accepted {} of {} bytes: {}", w.accepted.len(), payload.len(), brief(&w.accepted));
     }
     let oc = |s: &str| format!("{op}:{s}");
     let is_prefix = w.accepted.len() <= payload.len() && w.accepted[..] == payload[..w.accepted.len()];
     if !is_prefix {
+        // all bytes there, each once, but not in order?
+        let permuted = w.accepted.len() == payload.len() && {
+            let (mut a, mut b) = (w.accepted.clone(), payload.to_vec());
+            a.sort_unstable();
+            b.sort_unstable();
+            a == b
+        };
         viol(
             r,
             op,
-            "duplicated-or-lost-bytes",
-            format!("writer received {} which is not a prefix of {} (result {res:?})", show_bytes(&w.accepted), show_bytes(payload)),
+            if permuted { "bytes-out-of-order" } else { "duplicated-or-lost-bytes" },
+            format!("what the writer received is not a prefix of what was written (result {res:?}): {}", diff_desc(&w.accepted, payload)),
             case,
         );
     }
